@@ -262,6 +262,13 @@ class Printer:
             pos = self.tok()
             self.w(n[1])
             return f"(NText {pos})"
+        if k == "raw":
+            # RawNode: no expressions, no children; its token starts at `{%`
+            self.features.add("raw")
+            pos = self.tok()
+            self.w(self.r.choice(["{% raw %}", "{%raw%}", "{%- raw -%}"]) + n[1]
+                   + self.r.choice(["{% endraw %}", "{%endraw%}", "{% endraw -%}"]))
+            return f"(NText {pos})"
         if k == "comment":
             return self.comment(n, liquid)
         if k == "expr":
@@ -304,13 +311,14 @@ class Printer:
         return f"(NComment {pos} {C.cstr(text)})"
 
     def expr_node(self, n: tuple, liquid: bool) -> str:
-        _, kind, e = n
+        kind, e = n[1], n[2]
+        ml = len(n) > 3 and n[3] == "ml"      # forced multi-line layout
         self.features.add(kind + (":liquid" if liquid else ""))
         if kind == "output":
             pos = self.tok()
-            self.w(self.r.choice(["{{ ", "{{ ", "{{", "{{- ", "{{\n  "]))
+            self.w("{{\n\n  " if ml else self.r.choice(["{{ ", "{{ ", "{{", "{{- ", "{{\n  "]))
             _, t = self.texpr(e)
-            self.w(self.r.choice([" }}", " }}", "}}", " -}}", "\n}}"]))
+            self.w("\n\n}}" if ml else self.r.choice([" }}", " }}", "}}", " -}}", "\n}}"]))
             return f"(NExpr KOutput {pos} {t})"
         if kind == "echo":
             pos = self.open_tag("echo", liquid)
@@ -661,6 +669,15 @@ class Gen:
                                    + (WS_EXOTIC if r.random() < 0.1 else [])))
         return ("text", "".join(pieces))
 
+    def raw(self) -> tuple:
+        """A raw block, usually spanning several lines; markup inside is inert."""
+        r = self.r
+        self.n += 1
+        body = "".join(r.choice(["\n", "\n", "a", " ", "\r\n", f"{{{{ 'raw{self.n}' | t }}}}",
+                                 "{% translate %}no{% endtranslate %}", "{# Translators: no #}", "\n\n"])
+                       for _ in range(r.randint(0, 4)))
+        return ("raw", body)
+
     def comment_text(self, translator: bool, multiline: bool, inline: bool) -> str:
         r = self.r
         self.n += 1
@@ -757,9 +774,11 @@ class Gen:
                 out.append(self.translate())
             elif x < 0.62:
                 out.append(self.comment(False))
-            elif x < 0.77:
+            elif x < 0.73:
                 if not out or out[-1][0] != "text":
                     out.append(self.text())
+            elif x < 0.77:
+                out.append(self.raw())
             elif x < 0.86 and depth < 2:
                 out.append(self.if_(depth + 1, False))
             elif x < 0.93 and depth < 2:
@@ -1074,6 +1093,38 @@ def oracle(case: Case) -> list[tuple[str, str]]:
     for ctext, k in used.items():
         if k > len(comment_pos.get(ctext, [])) >= 1:
             fails.append(("comment-attached-to-several-messages", f"{ctext!r} attached to {k} messages"))
+    # 3. locations against an independent count: the line of every extracted
+    # message is the line (line breaks before it in the source text) of the
+    # offset at which the PRINTER wrote its tag / expression - never an offset
+    # taken from the implementation's tokens - and the comments it carries are
+    # those the source layout calls for (the last translator comment since the
+    # previous message, at most one line above).
+    for ln, m, _ in ext:
+        if m in site_pos and ln not in {true_line(starts, p) for p in site_pos[m]}:
+            fails.append(("extracted-line-differs-from-source-line",
+                          f"{m} is extracted with line {ln}; in the source its tag / expression is on line "
+                          f"{sorted({true_line(starts, p) for p in site_pos[m]})}"))
+    events = sorted([(pos, 0, ("c", text)) for pos, text in case.pr.comments]
+                    + [(pos, 1 + k, ("m", m)) for k, (pos, m) in enumerate(case.pr.static_sites)],
+                    key=lambda e: (e[0], e[1]))
+    expected: list[tuple[int, tuple, list[str]]] = []
+    pending: tuple[int, str] | None = None
+    for pos, _, (kind, val) in events:
+        if kind == "c":
+            pending = (true_line(starts, pos), val)
+        else:
+            l = true_line(starts, pos)
+            expected.append((l, val, [pending[1]] if pending is not None and pending[0] >= l - 1 else []))
+            pending = None
+    case.layout_checked = [m for _, m, _ in expected] == [m for _, m, _ in ext]
+    if case.layout_checked:
+        for (el, em, ec), (ln, m, comments) in zip(expected, ext):
+            if el != ln:
+                fails.append(("extracted-line-differs-from-source-line",
+                              f"{m} is extracted with line {ln}; its tag / expression is on line {el} of the source"))
+            if ec != comments:
+                fails.append(("comment-attachment-differs-from-source-layout",
+                              f"{m} (line {ln}) carries {comments}; the source layout calls for {ec}"))
     return fails
 
 
@@ -1236,6 +1287,55 @@ CORPUS: list[list[tuple]] = [
 ]
 
 
+def adjacency_corpus() -> list[list[tuple]]:
+    """Every kind of multi-line markup DIRECTLY followed (no text in between) by
+    every kind of message / translator-comment site: the follower's line is
+    its own, not the first line of what precedes it."""
+    def t_out(i: str, *lay: str) -> tuple:
+        return ("expr", "output", ("filtered", ("str", i), [("t", [])])) + tuple(lay)
+
+    multi: list[tuple[str, list[tuple]]] = [
+        ("raw", [("raw", "a\n{{ 'inert' | t }}\n\nb")]),
+        ("rawnl", [("raw", "\n")]),
+        ("cblock", [("comment", "block", "note\nmore\n")]),
+        ("chash", [("comment", "hash", " note\n more ")]),
+        ("chash2", [("comment", "hash2", " note\n\n more ")]),
+        ("cinline", [("comment", "inline", " note\n # more ")]),
+        ("ctrans", [("comment", "hash", " Translators: early\n more ")]),
+        ("liquid", [("liquid", [("expr", "assign", ("plain", ("int", 1))), ("comment", "line", " x"),
+                                ("expr", "assign", ("plain", ("int", 2)))])]),
+        ("output", [("expr", "output", ("plain", ("var", 0)), "ml")]),
+        ("outmsg", [t_out("PREV", "ml")]),
+        ("text", [("text", "a\nb\n\n")]),
+        ("translate", [("translate", [], [("text", "one\n two\n")], [("text", "many\n\n")])]),
+        ("if", [("if", ("var", 0), [("text", "\n\n")], [], [("text", "\n")])]),
+        ("for", [("for", ("int", 2), [("text", "\n")], None)]),
+    ]
+    out: list[list[tuple]] = []
+    k = 0
+    for mname, m in multi:
+        for pre in ([], [("text", "x\n\n")]):
+            k += 1
+            i = f"adj{k}"
+            followers: list[list[tuple]] = [
+                [("translate", [], [("text", i)], None)],
+                [("translate", [("context", ("str", "c"))], [("text", i)], [("text", i + "s")])],
+                [t_out(i)],
+                [t_out(i, "ml")],
+                [("expr", "echo", ("filtered", ("str", i), [("gettext", [])]))],
+                [("expr", "assign", ("filtered", ("str", i), [("pgettext", [("pos", ("str", "c"))])]))],
+                [("comment", "hash", f" Translators: {i} "), t_out(i)],
+                [("comment", "block", f"Translators: {i}"), ("text", "\n"), ("translate", [], [("text", i)], None)],
+                [("comment", "inline", f" Translators: {i} "), ("text", "\n"), t_out(i)],
+                [("comment", "hash2", f" Translators: {i}\n more "), ("translate", [], [("text", i)], None)],
+                [("liquid", [("comment", "line", f" Translators: {i}"),
+                             ("expr", "echo", ("filtered", ("str", i), [("t", [])]))])],
+            ]
+            for f in followers:
+                out.append(list(pre) + list(m) + f)
+    return out
+
+
 def main(chk: C.Check, build: C.Build) -> None:
     warnings.simplefilter("ignore")
     from liquid2 import Environment
@@ -1260,14 +1360,15 @@ def main(chk: C.Check, build: C.Build) -> None:
 
     n_prog = 700 if not thorough else 6000
     gen = Gen(rnd, thorough)
-    progs: list[list[tuple]] = [list(p) for p in CORPUS]
+    progs: list[list[tuple]] = [list(p) for p in CORPUS] + adjacency_corpus()
     for _ in range(n_prog):
         progs.append(gen.program())
 
     cases: list[Case] = []
     feats: dict[str, int] = {}
     dist = {"programs": 0, "renders": 0, "calls": 0, "literal_site_calls": 0, "extracted": 0,
-            "with_comments": 0, "render_errors": 0, "parse_errors": 0, "multi_line": 0}
+            "with_comments": 0, "render_errors": 0, "parse_errors": 0, "multi_line": 0,
+            "layout_oracle_programs": 0, "layout_oracle_tuples": 0}
     nontrivial = 0
     for i, prog in enumerate(progs):
         if adj:
@@ -1296,6 +1397,9 @@ def main(chk: C.Check, build: C.Build) -> None:
             feats[f] = feats.get(f, 0) + 1
         for sig, what in oracle(case) + (glue_oracle(case, e) if i % 3 == 0 else []):
             chk.finding(sig, what, case.replay())
+        if getattr(case, "layout_checked", False):
+            dist["layout_oracle_programs"] += 1
+            dist["layout_oracle_tuples"] += len(case.tuples)
     if dist["parse_errors"] > max(3, len(progs) // 50):
         chk.finding("generator:parse-errors", f"{dist['parse_errors']} generated programs do not parse",
                     {"broken": "harness generator"}, no_input=True)
@@ -1365,6 +1469,7 @@ def main(chk: C.Check, build: C.Build) -> None:
         "features": dict(sorted(feats.items())),
         "extra_oracle_cases_outside_model": n_extra,
         "line_number_offsets_compared": n_ln,
+        "adjacency_corpus_programs": len(adjacency_corpus()),
         "lexer_defect_12_present": adj,
         "exhaustive": False,
         "tier_proved": "kernel (extraction visitor + translate tag/filters + tracing render over the abstract syntax)",
